@@ -428,4 +428,25 @@ example :
     (a1.exec (.lock .wait 3 1 .none 100)).2.res.isGuard = false ∧ (a1.exec (.lock .wait 3 2 .none 100)).2.res.isGuard = true ∧
     (absSpec a1.s).free 1 = false ∧ (absSpec a1.s).free 2 = true := by decide
 
+/-- **A pending acquisition is served exactly in its turn** — public-call level, every state reachable by any sequence of API
+calls: polling a client's pending `async_lock` (handle `h` queued on its key; not an item of a stream, no suspended call under that
+id) completes with the guard **exactly when** the atomic specification has no guard for the key and `h` first in its FIFO, and answers
+`Pending` in every other case — never an error, never out of turn, whatever is going on on other keys. -/
+theorem C03_poll_served_in_turn (kind : Kind) (cs : List Call) (h : Nat) (hd : Handle) :
+    let a := cs.foldl (fun a c => (a.exec c).1) (Api.init kind)
+    a.s.hs h = some hd → hd.st = .queued → a.ownedByStream h = false → a.susp.lookup h = none →
+    ((a.exec (.poll h)).2.res.isGuard = true ↔
+      ((absSpec a.s).held hd.key = none ∧ ((absSpec a.s).waiting hd.key).head? = some h)) ∧
+    ((match (a.exec (.poll h)).2.res with | .pending => True | _ => False) ↔
+      ¬ ((absSpec a.s).held hd.key = none ∧ ((absSpec a.s).waiting hd.key).head? = some h)) := by
+  intro a hh hq hos hsu
+  exact poll_plain a (ainv_execs cs _ (ainv_init kind)).inv h hd hh hq hos hsu
+
+/-- non-vacuity: guard 1 on key 7, waiters 2 then 3; after guard 1 is dropped, polling 3 is `Pending`, polling 2 gets the guard -/
+example :
+    let a0 : Api := Api.init .hashMap
+    let a := ((((a0.exec (.lock .wait 1 7 .none 100)).1.exec (.lock .wait 2 7 .none 100)).1.exec (.lock .wait 3 7 .none 100)).1.exec (.drop 1)).1
+    hst (a.s.hs 3) = some .queued ∧ a.ownedByStream 3 = false ∧ a.susp.lookup 3 = none ∧
+    (a.exec (.poll 3)).2.res.isGuard = false ∧ (a.exec (.poll 2)).2.res.isGuard = true := by decide
+
 end Lockable
